@@ -60,6 +60,8 @@ type VC struct {
 	famSort  map[string]string
 	allocs   []*allocInfo
 	closures map[Term]*closureInfo
+	funcRefs map[Term]*ssa.Function
+	embSeen  map[string]bool
 	strLits  map[string]Term
 	notes    map[string]int // abstraction notes -> count
 	assumed  map[string]bool
@@ -307,6 +309,22 @@ func (vc *VC) havocAll(st *State) {
 	st.heap = map[string]Term{}
 	st.epoch = ep
 	for _, k := range keys {
+		if k == allocKey {
+			// unknown code may allocate: the set of allocated references can only grow
+			var old Term
+			if t, ok := oldHeap[k]; ok {
+				old = t
+			} else {
+				old = vc.famName(k, 0)
+				vc.declare(old, allocSort)
+			}
+			neu := vc.fresh(allocKey, allocSort)
+			vc.nfresh++
+			q := sym(fmt.Sprintf("al!q%d", vc.nfresh))
+			vc.emit("(assert (forall ((" + q + " Int)) (=> (select " + old + " " + q + ") (select " + neu + " " + q + "))))")
+			st.heap[k] = neu
+			continue
+		}
 		if strings.HasPrefix(k, "ghost.") || strings.HasPrefix(k, "S.") || strings.HasPrefix(k, "GI.") {
 			if t, ok := oldHeap[k]; ok {
 				st.heap[k] = t
@@ -521,11 +539,11 @@ func (vc *VC) strLit(s string) Value {
 		if len(s) <= 32 {
 			arr := vc.get(&State{heap: map[string]Term{}}, "S.byte", "(Array Int (Array Int Int))")
 			for i := 0; i < len(s); i++ {
-				vc.assumeAlways(sEq(sSel(sSel(arr, id), sInt(int64(i))), sInt(int64(s[i]))))
+				vc.decls = append(vc.decls, "(assert "+sEq(sSel(sSel(arr, id), sInt(int64(i))), sInt(int64(s[i])))+")")
 			}
 		}
 		vc.declareFun("str_id", []string{"Int", "Int", "Int"}, "Int")
-		vc.assumeAlways(sEq(sApp("str_id", id, "0", sInt(int64(len(s)))), id))
+		vc.decls = append(vc.decls, "(assert "+sEq(sApp("str_id", id, "0", sInt(int64(len(s)))), id)+")")
 	}
 	return Value{C: []Term{id, "0", sInt(int64(len(s)))}}
 }
